@@ -24,58 +24,55 @@ Definition tagged (p : fparams) : bool :=
 Definition noexp (p : fparams) : bool := negb (p_explicit p) || negb (tagged p).
 Definition tagnum (p : fparams) : Z := match p_tag p with Some n => n | None => -1 end.
 
-Fixpoint nodupb (l : list Z) : bool :=
-  match l with [] => true | x :: r => negb (existsb (Z.eqb x) r) && nodupb r end.
-
-Definition members_ok (l : list (fparams * ty)) : bool :=
-  forallb (fun a => tagged (fst a)) l && nodupb (map (fun a => tagnum (fst a)) l).
-
-(* the decoder's language: IMPLICIT context tags (or none), every member of a
-   SEQUENCE/SET/CHOICE tagged with pairwise distinct numbers, no open types,
-   OPTIONAL only on nillable members, no OBJECT IDENTIFIER *)
-Fixpoint rtok (t : ty) (p : fparams) {struct t} : bool :=
-  tag_ok p && noexp p &&
-  match t with
-  | TString k => let u := if p_strtype p =? 0 then k else p_strtype p in (0 <=? u) && (u <? 2 ^ 63)
-  | TPtr t' | TWrap t' => rtok t' p
-  | TSlice t' => rtok t' (clear_tag p)
-  | TChoice l =>
-    negb (p_open p) && members_ok l &&
-    (fix go (l : list (fparams * ty)) : bool :=
-       match l with [] => true | (fp, ft) :: r => rtok ft fp && go r end) l
-  | TSeq l =>
-    negb (p_open p) && members_ok l &&
-    (fix go (l : list (fparams * ty)) : bool :=
-       match l with
-       | [] => true
-       | (fp, ft) :: r => (negb (p_optional fp) || nillable ft) && rtok ft fp && go r
-       end) l
-  | TOid | TUnsupported => false
-  | _ => true
+(* context tags of the members are pairwise distinct (untagged members are
+   ignored: they can never match a context tag) *)
+Fixpoint tags_distinct (l : list (fparams * ty)) : bool :=
+  match l with
+  | [] => true
+  | a :: r =>
+    (match p_tag (fst a) with
+     | Some n => negb (existsb (fun b => tag_matches (fst b) n) r)
+     | None => true
+     end) && tags_distinct r
   end.
 
-(* canonical values: well typed; BIT STRING byte count = ceil(bits/8); the
-   unselected alternatives of a CHOICE are nil *)
-Fixpoint cv (t : ty) (v : value) {struct t} : bool :=
+(* [ok t p v]: the part of the type that the value [v] actually exercises lies
+   in the decoder's language, and [v] is canonical.
+   - context tags IMPLICIT (or none) and below 2^63; no open types; no OBJECT
+     IDENTIFIER; every member that is *present* in the encoding carries a
+     context tag; member tags pairwise distinct; OPTIONAL only on nillable kinds;
+   - integers are int64; BIT STRING byte count = ceil(bits/8); the unselected
+     alternatives of a CHOICE are nil.
+   Members that are absent (nil OPTIONAL) or alternatives that are not selected
+   are not constrained: e.g. a ChargingRecord without RecordExtensions is [ok]
+   although ManagementExtension contains an untagged OBJECT IDENTIFIER. *)
+Fixpoint ok (t : ty) (p : fparams) (v : value) {struct t} : bool :=
+  tag_ok p && noexp p &&
   match t with
   | TBool | TNull => match v with VBool _ => true | _ => false end
   | TInt | TEnum => match v with VInt z => int64_ok z | _ => false end
-  | TOctets | TOid => match v with VBytes l => bytes_ok l | VNil => true | _ => false end
+  | TOctets => match v with VBytes l => bytes_ok l | VNil => true | _ => false end
+  | TOid | TUnsupported => false
   | TBits =>
     match v with
     | VBits l n => bytes_ok l && (0 <=? n) && (zlen l =? (n + 7) / 8)
     | _ => false end
-  | TString _ => match v with VBytes l => bytes_ok l | _ => false end
-  | TPtr t' => match v with VNil => true | VPtr v' => cv t' v' | _ => false end
-  | TWrap t' => match v with VStruct [v0] => cv t' v0 | _ => false end
+  | TString k =>
+    match v with
+    | VBytes l => bytes_ok l &&
+                  (let u := if p_strtype p =? 0 then k else p_strtype p in (0 <=? u) && (u <? 2 ^ 63))
+    | _ => false end
+  | TPtr t' => match v with VNil => true | VPtr v' => ok t' p v' | _ => false end
+  | TWrap t' => match v with VStruct [v0] => ok t' p v0 | _ => false end
   | TChoice alts =>
     match v with
     | VStruct (VInt pr :: vs) =>
+      negb (p_open p) && tags_distinct alts &&
       (fix go (l : list (fparams * ty)) (ws : list value) (k : Z) : bool :=
          match l, ws with
          | [], [] => true
-         | (_, at') :: l', w :: ws' =>
-           (if k =? pr then cv at' w else is_nil w && is_nil (zero at')) && go l' ws' (k + 1)
+         | (ap, at') :: l', w :: ws' =>
+           (if k =? pr then tagged ap && ok at' ap w else is_nil w && is_nil (zero at')) && go l' ws' (k + 1)
          | _, _ => false
          end) alts vs 1
     | _ => false
@@ -83,10 +80,13 @@ Fixpoint cv (t : ty) (v : value) {struct t} : bool :=
   | TSeq fields =>
     match v with
     | VStruct vs =>
+      negb (p_open p) && tags_distinct fields &&
       (fix go (l : list (fparams * ty)) (ws : list value) : bool :=
          match l, ws with
          | [], [] => true
-         | (_, ft) :: l', w :: ws' => cv ft w && go l' ws'
+         | (fp, ft) :: l', w :: ws' =>
+           (if p_optional fp && is_nil w then nillable ft
+            else (negb (p_optional fp) || nillable ft) && tagged fp && ok ft fp w) && go l' ws'
          | _, _ => false
          end) fields vs
     | _ => false
@@ -95,10 +95,9 @@ Fixpoint cv (t : ty) (v : value) {struct t} : bool :=
     match v with
     | VNil => true
     | VSlice vs => (fix go (ws : list value) : bool :=
-                      match ws with [] => true | w :: r => cv t' w && go r end) vs
+                      match ws with [] => true | w :: r => ok t' (clear_tag p) w && go r end) vs
     | _ => false
     end
-  | TUnsupported => false
   end.
 
 (* ---- the shape of an encoding: one header followed by its contents ---- *)
@@ -242,14 +241,22 @@ Section Enter.
 End Enter.
 
 Definition rt_ok (t : ty) : Prop :=
-  forall p v bs, rtok t p = true -> cv t v = true -> enc t p v = Ok bs -> zlen bs < 2 ^ 32 ->
+  forall p v bs, ok t p v = true -> enc t p v = Ok bs -> zlen bs < 2 ^ 32 ->
     dec t p bs = Ok (canon t false v) /\ shaped p bs.
 
-Lemma rtok_base t p : rtok t p = true -> tag_ok p = true /\ noexp p = true.
+Lemma ok_split t p v : ok t p v = true ->
+  tag_ok p = true /\ noexp p = true /\
+  (ok t p v = true -> True).
 Proof.
-  destruct t; cbn [rtok]; intros H; repeat (apply andb_true_iff in H; destruct H as [H ?]);
-    try (split; assumption); try discriminate.
+  intros H. destruct t; cbn [ok] in H; apply andb_true_iff in H; destruct H as [H _];
+    apply andb_true_iff in H; destruct H as [H1 H2]; repeat split; assumption.
 Qed.
+
+(* strip the common prefix of [ok] *)
+Ltac ok_open Hok Ht Hn :=
+  let H := fresh in
+  pose proof (ok_split _ _ _ Hok) as [Ht [Hn _]];
+  cbn [ok] in Hok; apply andb_true_iff in Hok; destruct Hok as [_ Hok].
 
 (* open the decoder on [finish p 0 k T content] for a primitive type *)
 Ltac open_prim Hn Ht Hs :=
@@ -271,8 +278,8 @@ Ltac open_prim Hn Ht Hs :=
 
 Lemma rt_bool : rt_ok TBool.
 Proof.
-  intros p v bs Hr Hv He Hs. destruct (rtok_base _ _ Hr) as [Ht Hn].
-  rewrite enc_unfold in He. cbn [enc_step cv] in *. destruct v; try discriminate.
+  intros p v bs Hok He Hs. ok_open Hok Ht Hn.
+  rewrite enc_unfold in He. cbn [enc_step] in He. destruct v; try discriminate.
   inversion He; subst bs; clear He. open_prim Hn Ht Hs.
   set (H := hdr_of p 0 false 1 (zlen [if b then 255 else 0])).
   pose proof (hdr_len_pos 0 false 1 1). 
@@ -284,49 +291,49 @@ Qed.
 
 Lemma rt_int : rt_ok TInt.
 Proof.
-  intros p v bs Hr Hv He Hs. destruct (rtok_base _ _ Hr) as [Ht Hn].
-  rewrite enc_unfold in He. cbn [enc_step cv] in *. destruct v; try discriminate.
+  intros p v bs Hok He Hs. ok_open Hok Ht Hn.
+  rewrite enc_unfold in He. cbn [enc_step] in He. destruct v; try discriminate.
   inversion He; subst bs; clear He. open_prim Hn Ht Hs.
-  rewrite parse_signed_int_bytes by (apply int64_ok_range, Hv). reflexivity.
+  rewrite parse_signed_int_bytes by (apply int64_ok_range, Hok). reflexivity.
 Qed.
 
 Lemma rt_enum : rt_ok TEnum.
 Proof.
-  intros p v bs Hr Hv He Hs. destruct (rtok_base _ _ Hr) as [Ht Hn].
-  rewrite enc_unfold in He. cbn [enc_step cv] in *. destruct v; try discriminate.
+  intros p v bs Hok He Hs. ok_open Hok Ht Hn.
+  rewrite enc_unfold in He. cbn [enc_step] in He. destruct v; try discriminate.
   inversion He; subst bs; clear He. open_prim Hn Ht Hs.
-  rewrite parse_signed_int_bytes by (apply int64_ok_range, Hv). reflexivity.
+  rewrite parse_signed_int_bytes by (apply int64_ok_range, Hok). reflexivity.
 Qed.
 
 Lemma rt_octets : rt_ok TOctets.
 Proof.
-  intros p v bs Hr Hv He Hs. destruct (rtok_base _ _ Hr) as [Ht Hn].
-  rewrite enc_unfold in He. cbn [enc_step cv] in *.
+  intros p v bs Hok He Hs. ok_open Hok Ht Hn.
+  rewrite enc_unfold in He. cbn [enc_step] in He.
   destruct v; try discriminate; cbn [bytes_of] in He; inversion He; subst bs; clear He;
     open_prim Hn Ht Hs; reflexivity.
 Qed.
 
 Lemma rt_null : rt_ok TNull.
 Proof.
-  intros p v bs Hr Hv He Hs. destruct (rtok_base _ _ Hr) as [Ht Hn].
-  rewrite enc_unfold in He. cbn [enc_step cv] in *. destruct v; try discriminate.
+  intros p v bs Hok He Hs. ok_open Hok Ht Hn.
+  rewrite enc_unfold in He. cbn [enc_step] in He. destruct v; try discriminate.
   inversion He; subst bs; clear He. open_prim Hn Ht Hs. reflexivity.
 Qed.
 
 Lemma rt_string k : rt_ok (TString k).
 Proof.
-  intros p v bs Hr Hv He Hs. destruct (rtok_base _ _ Hr) as [Ht Hn].
-  cbn [rtok] in Hr. apply andb_true_iff in Hr. destruct Hr as [_ Hu].
-  rewrite enc_unfold in He. cbn [enc_step cv] in *. destruct v; try discriminate.
+  intros p v bs Hok He Hs. ok_open Hok Ht Hn.
+  rewrite enc_unfold in He. cbn [enc_step] in He. destruct v; try discriminate.
+  apply andb_true_iff in Hok. destruct Hok as [_ Hu].
   inversion He; subst bs; clear He. open_prim Hn Ht Hs. reflexivity.
 Qed.
 
 Lemma rt_bits : rt_ok TBits.
 Proof.
-  intros p v bs Hr Hv He Hs. destruct (rtok_base _ _ Hr) as [Ht Hn].
-  rewrite enc_unfold in He. cbn [enc_step cv] in *. destruct v as [| | |l n| | | |]; try discriminate.
+  intros p v bs Hok He Hs. ok_open Hok Ht Hn.
+  rewrite enc_unfold in He. cbn [enc_step] in He. destruct v as [| | |l n| | | |]; try discriminate.
   inversion He; subst bs; clear He.
-  apply andb_true_iff in Hv. destruct Hv as [Hv Hlen]. apply andb_true_iff in Hv. destruct Hv as [Hb Hn0].
+  apply andb_true_iff in Hok. destruct Hok as [Hv Hlen]. apply andb_true_iff in Hv. destruct Hv as [Hb Hn0].
   open_prim Hn Ht Hs.
   unfold parse_bits. rewrite zlen_cons. pose proof (zlen_nonneg l).
   replace ((8 - n mod 8) mod 8 >? 7) with false by lia.
@@ -357,27 +364,20 @@ Proof.
     rewrite explicit_cond_false by exact Hn; reflexivity.
 Qed.
 
-Lemma rtok_ptr t p : rtok (TPtr t) p = true -> rtok t p = true.
-Proof. cbn [rtok]. intros H. apply andb_true_iff in H. exact (proj2 H). Qed.
-Lemma rtok_wrap t p : rtok (TWrap t) p = true -> rtok t p = true.
-Proof. cbn [rtok]. intros H. apply andb_true_iff in H. exact (proj2 H). Qed.
-Lemma rtok_slice t p : rtok (TSlice t) p = true -> rtok t (clear_tag p) = true.
-Proof. cbn [rtok]. intros H. apply andb_true_iff in H. exact (proj2 H). Qed.
-
 Lemma rt_ptr t : rt_ok t -> rt_ok (TPtr t).
 Proof.
-  intros IH p v bs Hr Hv He Hs.
-  rewrite enc_unfold in He. cbn [enc_step cv] in *. destruct v; try discriminate.
-  destruct (IH p v bs (rtok_ptr _ _ Hr) Hv He Hs) as [Hd Hsh].
+  intros IH p v bs Hok He Hs. ok_open Hok Ht Hn.
+  rewrite enc_unfold in He. cbn [enc_step] in He. destruct v; try discriminate.
+  destruct (IH p v bs Hok He Hs) as [Hd Hsh].
   split; [|exact Hsh]. rewrite dec_unfold. cbn [dec_step]. rewrite Hd. reflexivity.
 Qed.
 
 Lemma rt_wrap t : rt_ok t -> rt_ok (TWrap t).
 Proof.
-  intros IH p v bs Hr Hv He Hs. destruct (rtok_base _ _ Hr) as [Ht Hn].
-  rewrite enc_unfold in He. cbn [enc_step cv] in *.
+  intros IH p v bs Hok He Hs. ok_open Hok Ht Hn.
+  rewrite enc_unfold in He. cbn [enc_step] in He.
   destruct v as [| | | | | |[|v0 [|? ?]]|]; try discriminate.
-  destruct (IH p v0 bs (rtok_wrap _ _ Hr) Hv He Hs) as [Hd Hsh].
+  destruct (IH p v0 bs Hok He Hs) as [Hd Hsh].
   split; [|exact Hsh].
   destruct (shaped_enter dec (TWrap t) p bs Hsh Hs Hn I) as [tal [off [Hpar [R [Hstep _]]]]].
   rewrite dec_unfold, Hstep. unfold dec_body. rewrite Hpar. cbn [bind]. rewrite R.
@@ -418,15 +418,15 @@ Proof.
     rewrite app_assoc. rewrite IH; [reflexivity | exact HF' | cbn in Hf; lia].
 Qed.
 
-Lemma enc_slice_go_split t' p : rt_ok t' -> rtok t' (clear_tag p) = true ->
+Lemma enc_slice_go_split t' p : rt_ok t' ->
   forall ws content,
   (fix go (ws : list value) : bool :=
-     match ws with [] => true | w :: r => cv t' w && go r end) ws = true ->
+     match ws with [] => true | w :: r => ok t' (clear_tag p) w && go r end) ws = true ->
   enc_slice_go enc t' p ws = Ok content -> zlen content < 2 ^ 32 ->
   exists bl, content = concat bl /\ Forall chunk_ok bl /\ length bl = length ws /\
              slice_go dec t' p bl = Ok (map (canon t' false) ws).
 Proof.
-  intros IHt Hr. induction ws as [|w ws IH]; intros content Hcv He Hs.
+  intros IHt. induction ws as [|w ws IH]; intros content Hcv He Hs.
   - cbn in He. inversion He. exists []. repeat split; constructor.
   - apply andb_true_iff in Hcv. destruct Hcv as [Hw Hwr].
     cbn [enc_slice_go] in He.
@@ -434,7 +434,7 @@ Proof.
     destruct (enc_slice_go enc t' p ws) as [r| | |] eqn:Er; cbn [bind] in He; try discriminate He.
     inversion He; subst content; clear He.
     rewrite zlen_app in Hs. pose proof (zlen_nonneg b). pose proof (zlen_nonneg r).
-    destruct (IHt (clear_tag p) w b Hr Hw Eb ltac:(lia)) as [Hd Hsh].
+    destruct (IHt (clear_tag p) w b Hw Eb ltac:(lia)) as [Hd Hsh].
     destruct (IH r Hwr eq_refl ltac:(lia)) as [bl [Ec [HF [Hlen Hgo]]]].
     exists (b :: bl). cbn [concat]. subst r. split; [reflexivity|].
     split; [constructor; [split; [exists (clear_tag p); exact Hsh | lia] | exact HF]|].
@@ -456,15 +456,14 @@ Proof. unfold seq_tag. destruct (p_set p); lia. Qed.
 
 Lemma rt_slice t : rt_ok t -> rt_ok (TSlice t).
 Proof.
-  intros IH p v bs Hr Hv He Hs. destruct (rtok_base _ _ Hr) as [Ht Hn].
-  pose proof (rtok_slice _ _ Hr) as Hr'.
-  rewrite enc_unfold in He. cbn [enc_step cv] in *.
+  intros IH p v bs Hok He Hs. ok_open Hok Ht Hn.
+  rewrite enc_unfold in He. cbn [enc_step] in He.
   assert (exists vs, (match v with VSlice vs => Some vs | VNil => Some [] | _ => None end) = Some vs /\
             (fix go (ws : list value) : bool :=
-               match ws with [] => true | w :: r => cv t w && go r end) vs = true /\
+               match ws with [] => true | w :: r => ok t (clear_tag p) w && go r end) vs = true /\
             canon (TSlice t) false v = VSlice (map (canon t false) vs)) as [vs [Ev [Hcv Hcan]]].
-  { destruct v; try discriminate; eexists; repeat split; try reflexivity; exact Hv. }
-  rewrite Ev in He. rewrite Hcan. clear Ev Hcan Hv.
+  { destruct v; try discriminate; eexists; repeat split; try reflexivity; exact Hok. }
+  rewrite Ev in He. rewrite Hcan. clear Ev Hcan Hok.
   destruct (enc_slice_go enc t p vs) as [content| | |] eqn:Ec; cbn [bind] in He; try discriminate.
   inversion He; subst bs; clear He.
   rewrite finish_hdr_of in * by exact Hn.
@@ -474,7 +473,7 @@ Proof.
   pose proof (seq_tag_range p) as Hst.
   split.
   2:{ unfold H. rewrite <- finish_hdr_of by exact Hn. apply finish_shaped; assumption. }
-  destruct (enc_slice_go_split t p IH Hr' vs content Hcv Ec Hcl) as [bl [Econ [HF [Hlen Hgo]]]].
+  destruct (enc_slice_go_split t p IH vs content Hcv Ec Hcl) as [bl [Econ [HF [Hlen Hgo]]]].
   rewrite dec_unfold. unfold H.
   rewrite (enter_step dec p 0 true (seq_tag p) content Hn Ht Hc0 Hst Hcl) by exact I.
   unfold dec_body. pose proof (zlen_nonneg content).
@@ -503,12 +502,12 @@ Proof.
     + apply IH; assumption.
 Qed.
 
-Definition cv_choice_go (pr : Z) :=
+Definition ok_choice_go (pr : Z) :=
   fix go (l : list (fparams * ty)) (ws : list value) (k : Z) : bool :=
     match l, ws with
     | [], [] => true
-    | (_, at') :: l', w :: ws' =>
-      (if k =? pr then cv at' w else is_nil w && is_nil (zero at')) && go l' ws' (k + 1)
+    | (ap, at') :: l', w :: ws' =>
+      (if k =? pr then tagged ap && ok at' ap w else is_nil w && is_nil (zero at')) && go l' ws' (k + 1)
     | _, _ => false
     end.
 
@@ -524,12 +523,12 @@ Lemma is_nil_eq v : is_nil v = true -> v = VNil.
 Proof. destruct v; cbn; try discriminate; reflexivity. Qed.
 
 Lemma canon_choice_nomatch pr : forall l ws k,
-  pr < k -> cv_choice_go pr l ws k = true -> canon_choice_go pr l ws k = map (fun a => zero (snd a)) l.
+  pr < k -> ok_choice_go pr l ws k = true -> canon_choice_go pr l ws k = map (fun a => zero (snd a)) l.
 Proof.
   induction l as [|[a0 t0] l IH]; intros ws k Hk Hcv.
   - destruct ws; [reflexivity | discriminate Hcv].
   - destruct ws as [|w0 ws]; [discriminate Hcv|].
-    cbn [cv_choice_go canon_choice_go map snd] in *.
+    cbn [ok_choice_go canon_choice_go map snd] in *.
     replace (k =? pr) with false in * by lia.
     apply andb_true_iff in Hcv. destruct Hcv as [H0 Hr].
     apply andb_true_iff in H0. destruct H0 as [N1 N2].
@@ -537,19 +536,20 @@ Proof.
 Qed.
 
 Lemma canon_choice_sel pr : forall l ws k j ap at' w,
-  pr = k + Z.of_nat j -> cv_choice_go pr l ws k = true ->
+  pr = k + Z.of_nat j -> ok_choice_go pr l ws k = true ->
   nth_error l j = Some (ap, at') -> nth_error ws j = Some w ->
   canon_choice_go pr l ws k = set_nth (map (fun a => zero (snd a)) l) j (canon at' false w) /\
-  cv at' w = true.
+  tagged ap = true /\ ok at' ap w = true.
 Proof.
   induction l as [|[a0 t0] l IH]; intros ws k j ap at' w Hpr Hcv Hl Hw.
   - destruct j; discriminate Hl.
   - destruct ws as [|w0 ws]; [destruct j; discriminate Hw|].
-    cbn [cv_choice_go canon_choice_go map snd] in *.
+    cbn [ok_choice_go canon_choice_go map snd] in *.
     apply andb_true_iff in Hcv. destruct Hcv as [H0 Hr].
     destruct j as [|j]; cbn [nth_error set_nth] in *.
     + inversion Hl; inversion Hw; subst. replace (k =? k + Z.of_nat 0) with true in * by lia.
-      split; [|exact H0]. f_equal. apply canon_choice_nomatch; [lia | exact Hr].
+      apply andb_true_iff in H0. destruct H0 as [T0 K0].
+      split; [|split; assumption]. f_equal. apply canon_choice_nomatch; [lia | exact Hr].
     + replace (k =? pr) with false in * by lia.
       apply andb_true_iff in H0. destruct H0 as [N1 N2].
       rewrite (is_nil_eq _ N1), (is_nil_eq _ N2).
@@ -576,62 +576,43 @@ Proof.
 Qed.
 
 (* distinct member tags *)
-Lemma nodupb_nth l : nodupb l = true -> forall i j x y,
-  nth_error l i = Some x -> nth_error l j = Some y -> i <> j -> x <> y.
-Proof.
-  induction l as [|a l IH]; intros Hn i j x y Hi Hj Hne.
-  - destruct i; discriminate Hi.
-  - cbn [nodupb] in Hn. apply andb_true_iff in Hn. destruct Hn as [Hnot Hrest].
-    assert (Hnotin : forall z, In z l -> a <> z).
-    { intros z Hz Heq. subst z. rewrite negb_true_iff in Hnot.
-      assert (existsb (Z.eqb a) l = true) by (apply existsb_exists; exists a; split; [exact Hz | lia]).
-      congruence. }
-    destruct i as [|i], j as [|j]; cbn [nth_error] in *.
-    + contradiction.
-    + inversion Hi; subst. apply Hnotin. eapply nth_error_In; eassumption.
-    + inversion Hj; subst. intros E. symmetry in E. revert E. apply Hnotin. eapply nth_error_In; eassumption.
-    + eapply IH; eauto.
-Qed.
+Lemma tagged_tag p : tagged p = true -> p_tag p = Some (tagnum p).
+Proof. unfold tagged, tagnum. destruct (p_tag p); [reflexivity | discriminate]. Qed.
 
-Lemma members_tag_neq l : members_ok l = true -> forall i j a b,
-  nth_error l i = Some a -> nth_error l j = Some b -> i <> j ->
+Lemma tags_distinct_neq l : tags_distinct l = true -> forall i j a b,
+  nth_error l i = Some a -> nth_error l j = Some b -> i <> j -> tagged (fst b) = true ->
   tag_matches (fst a) (tagnum (fst b)) = false.
 Proof.
-  intros Hm i j a b Ha Hb Hne. unfold members_ok in Hm. apply andb_true_iff in Hm. destruct Hm as [Htag Hnd].
-  rewrite forallb_forall in Htag.
-  pose proof (Htag a (nth_error_In _ _ Ha)) as Ta. pose proof (Htag b (nth_error_In _ _ Hb)) as Tb.
-  assert (N : tagnum (fst a) <> tagnum (fst b)).
-  { apply (nodupb_nth _ Hnd i j); try assumption;
-      rewrite nth_error_map; [rewrite Ha | rewrite Hb]; reflexivity. }
-  unfold tag_matches, tagged, tagnum in *. destruct (p_tag (fst a)); [|discriminate].
-  destruct (p_tag (fst b)); [|discriminate]. lia.
-Qed.
-
-Lemma members_tagged l i a : members_ok l = true -> nth_error l i = Some a ->
-  p_tag (fst a) = Some (tagnum (fst a)).
-Proof.
-  intros Hm Ha. unfold members_ok in Hm. apply andb_true_iff in Hm. destruct Hm as [Htag _].
-  rewrite forallb_forall in Htag. pose proof (Htag a (nth_error_In _ _ Ha)) as Ta.
-  unfold tagged, tagnum in *. destruct (p_tag (fst a)); [reflexivity | discriminate].
-Qed.
-
-Lemma rtok_choice_nth l : forall i ap at',
-  (fix go (l : list (fparams * ty)) : bool :=
-     match l with [] => true | (fp, ft) :: r => rtok ft fp && go r end) l = true ->
-  nth_error l i = Some (ap, at') -> rtok at' ap = true.
-Proof.
-  induction l as [|[a0 t0] l IH]; intros i ap at' H Hn; [destruct i; discriminate Hn|].
-  apply andb_true_iff in H. destruct H as [H0 Hr].
-  destruct i; cbn [nth_error] in Hn; [inversion Hn; subst; exact H0 | eapply IH; eassumption].
+  induction l as [|x l IH]; intros Hd i j a b Ha Hb Hne Tb.
+  - destruct i; discriminate Ha.
+  - cbn [tags_distinct] in Hd. apply andb_true_iff in Hd. destruct Hd as [Hx Hrest].
+    pose proof (tagged_tag _ Tb) as Eb.
+    destruct i as [|i], j as [|j]; cbn [nth_error] in *.
+    + contradiction.
+    + inversion Ha; subst x. unfold tag_matches at 1.
+      destruct (p_tag (fst a)) as [n|] eqn:Ea; [|reflexivity].
+      rewrite negb_true_iff in Hx.
+      assert (Hb' : tag_matches (fst b) n = false).
+      { destruct (tag_matches (fst b) n) eqn:E; [|reflexivity]. exfalso.
+        assert (existsb (fun b0 => tag_matches (fst b0) n) l = true)
+          by (apply existsb_exists; exists b; split; [eapply nth_error_In; eassumption | exact E]).
+        congruence. }
+      unfold tag_matches in Hb'. rewrite Eb in Hb'. lia.
+    + inversion Hb; subst x. rewrite Eb in Hx. rewrite negb_true_iff in Hx.
+      destruct (tag_matches (fst a) (tagnum (fst b))) eqn:E; [|reflexivity]. exfalso.
+      assert (existsb (fun b0 => tag_matches (fst b0) (tagnum (fst b))) l = true)
+        by (apply existsb_exists; exists a; split; [eapply nth_error_In; eassumption | exact E]).
+      congruence.
+    + eapply IH; eauto.
 Qed.
 
 Lemma Forall_nth {A} (P : A -> Prop) l i a : Forall P l -> nth_error l i = Some a -> P a.
 Proof. intros H Hn. rewrite Forall_forall in H. apply H. eapply nth_error_In; eassumption. Qed.
 
-Lemma cv_choice_len pr : forall l ws k, cv_choice_go pr l ws k = true -> length l = length ws.
+Lemma ok_choice_len pr : forall l ws k, ok_choice_go pr l ws k = true -> length l = length ws.
 Proof.
   induction l as [|[a0 t0] l IH]; intros ws k H; destruct ws; try discriminate H; [reflexivity|].
-  cbn [cv_choice_go] in H. apply andb_true_iff in H. cbn [length]. f_equal. eapply IH. exact (proj2 H).
+  cbn [ok_choice_go] in H. apply andb_true_iff in H. cbn [length]. f_equal. eapply IH. exact (proj2 H).
 Qed.
 
 Lemma shaped_same_tag p q bs : p_tag p = p_tag q -> shaped p bs -> shaped q bs.
@@ -643,31 +624,29 @@ Qed.
 
 Lemma rt_choice l : Forall (fun a => rt_ok (snd a)) l -> rt_ok (TChoice l).
 Proof.
-  intros IH p v bs Hr Hv He Hs. destruct (rtok_base _ _ Hr) as [Ht Hn].
-  cbn [rtok] in Hr. apply andb_true_iff in Hr. destruct Hr as [_ Hr].
-  apply andb_true_iff in Hr. destruct Hr as [Hr Hgo].
-  apply andb_true_iff in Hr. destruct Hr as [Ho Hm]. rewrite negb_true_iff in Ho.
-  rewrite enc_unfold in He. cbn [enc_step cv] in *.
+  intros IH p v bs Hok He Hs. ok_open Hok Ht Hn.
+  rewrite enc_unfold in He. cbn [enc_step] in He.
   destruct v as [| | | | | |[|[| pr | | | | | |] vs]|]; try discriminate.
-  fold (cv_choice_go pr) in Hv.
+  apply andb_true_iff in Hok. destruct Hok as [Hok Hv].
+  apply andb_true_iff in Hok. destruct Hok as [Ho Hm]. rewrite negb_true_iff in Ho.
+  fold (ok_choice_go pr) in Hv.
   destruct (pr <=? 0) eqn:E1; [discriminate|].
   destruct (pr >=? 1 + zlen l) eqn:E2; [discriminate|].
   set (j := Z.to_nat (pr - 1)) in *.
   assert (Hj : (j < length l)%nat) by (unfold j, zlen in *; lia).
-  pose proof (cv_choice_len pr l vs 1 Hv) as Hlen.
+  pose proof (ok_choice_len pr l vs 1 Hv) as Hlen.
   destruct (nth_error l j) as [[ap at']|] eqn:El; [|apply nth_error_None in El; lia].
   destruct (nth_error vs j) as [w|] eqn:Ew; [|apply nth_error_None in Ew; lia].
-  destruct (canon_choice_sel pr l vs 1 j ap at' w ltac:(unfold j; lia) Hv El Ew) as [Ecan Hcw].
-  pose proof (rtok_choice_nth l j ap at' Hgo El) as Hra.
+  destruct (canon_choice_sel pr l vs 1 j ap at' w ltac:(unfold j; lia) Hv El Ew) as [Ecan [Htg0 Hcw]].
   pose proof (Forall_nth _ _ _ _ IH El) as IHa. cbn [snd] in IHa.
-  pose proof (members_tagged l j (ap, at') Hm El) as Htagj. cbn [fst] in Htagj.
+  pose proof (tagged_tag _ Htg0) as Htagj.
   rewrite (enc_pick_nth p Ho l vs j ap at' w El Ew) in He.
   cbn [canon]. fold (canon_choice_go pr). rewrite Ecan.
   assert (Hpr : Z.of_nat (S (0 + j)) = pr) by (unfold j; lia).
   (* the alternatives before j do not carry the selected tag *)
   assert (Hbefore : forall i a, nth_error l i = Some a -> (i < j)%nat ->
                       tag_matches (fst a) (tagnum ap) = false).
-  { intros i a Hi Hlt. apply (members_tag_neq l Hm i j a (ap, at') Hi El). lia. }
+  { intros i a Hi Hlt. apply (tags_distinct_neq l Hm i j a (ap, at') Hi El); [lia | exact Htg0]. }
   assert (Hmatch : tag_matches ap (tagnum ap) = true).
   { unfold tag_matches. rewrite Htagj. lia. }
   destruct (p_tag p) as [n|] eqn:Et.
@@ -679,7 +658,7 @@ Proof.
     rewrite finish_hdr_of in * by exact Hn'.
     set (H := hdr_of (no_explicit p) 0 true 0 (zlen inner)) in *.
     assert (Hil : zlen inner < 2 ^ 32) by (rewrite zlen_app in Hs; pose proof (zlen_nonneg H); lia).
-    destruct (IHa ap w inner Hra Hcw Ei Hil) as [Hd Hsh].
+    destruct (IHa ap w inner Hcw Ei Hil) as [Hd Hsh].
     assert (Hc0 : cls_ok 0) by (unfold cls_ok; lia).
     split.
     2:{ apply (shaped_same_tag (no_explicit p) p); [reflexivity|].
@@ -704,12 +683,11 @@ Proof.
     rewrite (choice_pick_sel dec l inner (tagnum ap) j l 0 ap at' Hbefore El Hmatch).
     rewrite Hd. cbn [bind]. rewrite Hpr. reflexivity.
   - (* untagged CHOICE: the alternative's own encoding *)
-    destruct (IHa ap w bs Hra Hcw He Hs) as [Hd Hsh].
+    destruct (IHa ap w bs Hcw He Hs) as [Hd Hsh].
     split.
     2:{ destruct Hsh as [c [k [tn [content [H1 [H2 [H3 H4]]]]]]]. exists c, k, tn, content.
         split; [exact H1|]. split; [exact H2|]. split; [exact H3|].
         intros m Hmm. rewrite Et in Hmm. discriminate Hmm. }
-    destruct (rtok_base _ _ Hra) as [Hta Hna].
     destruct (shaped_parse ap bs [] Hsh Hs) as [tal [off [Hpar [Hoff [Hlen2 [Hl0 Htg]]]]]].
     rewrite app_nil_r in Hpar.
     rewrite dec_unfold. cbn [dec_step]. rewrite Hpar. cbn [bind].
@@ -734,19 +712,14 @@ Definition canon_seq_go :=
     | _, _ => ws
     end.
 
-Definition cv_seq_go :=
+Definition ok_seq_go :=
   fix go (l : list (fparams * ty)) (ws : list value) : bool :=
     match l, ws with
     | [], [] => true
-    | (_, ft) :: l', w :: ws' => cv ft w && go l' ws'
+    | (fp, ft) :: l', w :: ws' =>
+      (if p_optional fp && is_nil w then nillable ft
+       else (negb (p_optional fp) || nillable ft) && tagged fp && ok ft fp w) && go l' ws'
     | _, _ => false
-    end.
-
-Definition rtok_seq_go :=
-  fix go (l : list (fparams * ty)) : bool :=
-    match l with
-    | [] => true
-    | (fp, ft) :: r => (negb (p_optional fp) || nillable ft) && rtok ft fp && go r
     end.
 
 Lemma seq_find_sel rec p current tn chunk K : forall jrel l' i0 fp ft,
@@ -785,14 +758,14 @@ Section SeqRT.
   Variable l : list (fparams * ty).
   Variable p : fparams.
   Variable bs : list Z.
-  Hypothesis Hm : members_ok l = true.
+  Hypothesis Hm : tags_distinct l = true.
   Hypothesis Ho : p_open p = false.
   Hypothesis Hsz : zlen bs < 2 ^ 32.
 
   Lemma seq_loop_rt : forall rem wrem pre canon_pre fuel current B0 C,
     l = pre ++ rem ->
     Forall (fun a => rt_ok (snd a)) rem ->
-    rtok_seq_go rem = true -> cv_seq_go rem wrem = true ->
+    ok_seq_go rem wrem = true ->
     enc_seq_go enc rem wrem = Ok C ->
     bs = B0 ++ C ->
     (current <= length pre)%nat -> length canon_pre = length pre ->
@@ -801,28 +774,27 @@ Section SeqRT.
     = Ok (VStruct (canon_pre ++ canon_seq_go rem wrem)).
   Proof.
     induction rem as [|[fp ft] rem IH];
-      intros wrem pre canon_pre fuel current B0 C El HF Hr Hcv He Ebs Hcur Hlen Hfuel.
+      intros wrem pre canon_pre fuel current B0 C El HF Hcv He Ebs Hcur Hlen Hfuel.
     - destruct wrem; [|discriminate Hcv]. cbn in He. inversion He; subst C.
       rewrite app_nil_r in Ebs. cbn [map canon_seq_go].
       replace (zlen bs) with (zlen B0) by (rewrite Ebs; reflexivity).
       destruct fuel; cbn [seq_loop]; replace (zlen B0 >=? zlen B0) with true by lia; reflexivity.
     - destruct wrem as [|w wrem]; [discriminate Hcv|].
-      cbn [cv_seq_go rtok_seq_go] in *.
-      apply andb_true_iff in Hcv. destruct Hcv as [Hw Hcvr].
-      apply andb_true_iff in Hr. destruct Hr as [Hr Hrr].
-      apply andb_true_iff in Hr. destruct Hr as [Hnil Hrf].
+      cbn [ok_seq_go] in Hcv.
+      apply andb_true_iff in Hcv. destruct Hcv as [Hhead Hcvr].
       apply Forall_cons_iff in HF. destruct HF as [IHf HFr]. cbn [snd] in IHf.
       cbn [enc_seq_go] in He. cbn [map snd canon_seq_go].
       assert (El' : pre ++ (fp, ft) :: rem = (pre ++ [(fp, ft)]) ++ rem) by (rewrite <- app_assoc; reflexivity).
       (* the step for a member that is present in the encoding *)
-      assert (Present : forall b r, enc ft fp w = Ok b -> enc_seq_go enc rem wrem = Ok r -> C = b ++ r ->
+      assert (Present : forall b r, tagged fp = true -> ok ft fp w = true ->
+                enc ft fp w = Ok b -> enc_seq_go enc rem wrem = Ok r -> C = b ++ r ->
                 seq_loop dec l p bs (zlen bs) fuel (zlen B0) current
                   (canon_pre ++ zero ft :: map (fun a => zero (snd a)) rem) =
                 Ok (VStruct (canon_pre ++ canon ft false w :: canon_seq_go rem wrem))).
-      { intros b r Eb Er EC. subst C.
+      { intros b r Htg0 Hw Eb Er EC. subst C.
         assert (Hbl : zlen b < 2 ^ 32).
         { rewrite Ebs, !zlen_app in Hsz. pose proof (zlen_nonneg B0). pose proof (zlen_nonneg r). lia. }
-        destruct (IHf fp w b Hrf Hw Eb Hbl) as [Hd Hsh].
+        destruct (IHf fp w b Hw Eb Hbl) as [Hd Hsh].
         pose proof (shaped_len fp b Hsh) as Hb2. pose proof (zlen_nonneg r) as Hr0.
         rewrite zlen_app in Hfuel.
         destruct fuel as [|fk]; [lia|]. cbn [seq_loop].
@@ -838,8 +810,8 @@ Section SeqRT.
         replace (zlen B0) with (zlen B0 + 0) at 1 by lia.
         rewrite slice_shift by lia. rewrite slice0_app by reflexivity. cbn [bind].
         assert (Hnth : nth_error l (length pre) = Some (fp, ft)) by (rewrite El; apply nth_error_app_len).
-        pose proof (members_tagged l (length pre) (fp, ft) Hm Hnth) as Htagj.
-        cbn [fst] in Htagj. rewrite (Htg _ Htagj).
+        pose proof (tagged_tag _ Htg0) as Htagj.
+        rewrite (Htg _ Htagj).
         rewrite (seq_find_sel dec p current (tagnum fp) b _ (length pre) l 0 fp ft).
         - rewrite Hd. cbn [bind]. cbn [Nat.add].
           rewrite <- Hlen. rewrite set_nth_app_len. rewrite Hlen.
@@ -858,14 +830,15 @@ Section SeqRT.
           + rewrite !app_length. cbn [length]. lia.
           + lia.
         - intros i a Hi Hlt.
-          apply (members_tag_neq l Hm i (length pre) a (fp, ft) Hi Hnth). lia.
+          apply (tags_distinct_neq l Hm i (length pre) a (fp, ft) Hi Hnth); [lia | exact Htg0].
         - exact Hnth.
         - cbn [Nat.add]. destruct (p_set p); lia.
         - exact Ho.
         - unfold tag_matches. rewrite Htagj. lia. }
       destruct (p_optional fp) eqn:Eopt; cbn [andb negb orb] in *.
-      + rewrite Hnil in He. destruct (is_nil w) eqn:Enil.
+      + destruct (is_nil w) eqn:Enil.
         * (* absent OPTIONAL member *)
+          rename Hhead into Hnil. rewrite Hnil in He.
           rewrite (is_nil_eq _ Enil).
           rewrite <- (nillable_zero_canon ft Hnil).
           replace (canon_pre ++ zero ft :: map (fun a => zero (snd a)) rem)
@@ -880,29 +853,32 @@ Section SeqRT.
           -- rewrite app_length. cbn [length]. lia.
           -- rewrite !app_length. cbn [length]. lia.
         * (* present OPTIONAL member *)
+          apply andb_true_iff in Hhead. destruct Hhead as [Hhead Hw].
+          apply andb_true_iff in Hhead. destruct Hhead as [Hnil Htg0].
+          rewrite Hnil in He.
           rewrite (is_nil_canon ft w Enil).
           destruct (p_open fp); [discriminate He|].
           destruct (enc ft fp w) as [b| | |] eqn:Eb; try discriminate He.
           destruct (enc_seq_go enc rem wrem) as [r| | |] eqn:Er; cbn [bind] in He; try discriminate He.
           inversion He; subst C; clear He.
-          apply (Present b r); reflexivity.
-      + destruct (p_open fp); [discriminate He|].
+          apply (Present b r); try reflexivity; assumption.
+      + apply andb_true_iff in Hhead. destruct Hhead as [Htg0 Hw].
+        destruct (p_open fp); [discriminate He|].
         destruct (enc ft fp w) as [b| | |] eqn:Eb; try discriminate He.
         destruct (enc_seq_go enc rem wrem) as [r| | |] eqn:Er; cbn [bind] in He; try discriminate He.
         inversion He; subst C; clear He.
-        apply (Present b r); reflexivity.
+        apply (Present b r); try reflexivity; assumption.
   Qed.
 End SeqRT.
 
 Lemma rt_seq l : Forall (fun a => rt_ok (snd a)) l -> rt_ok (TSeq l).
 Proof.
-  intros IH p v bs Hr Hv He Hs. destruct (rtok_base _ _ Hr) as [Ht Hn].
-  cbn [rtok] in Hr. apply andb_true_iff in Hr. destruct Hr as [_ Hr].
-  apply andb_true_iff in Hr. destruct Hr as [Hr Hgo].
-  apply andb_true_iff in Hr. destruct Hr as [Ho Hm]. rewrite negb_true_iff in Ho.
-  rewrite enc_unfold in He. cbn [enc_step cv] in *.
+  intros IH p v bs Hok He Hs. ok_open Hok Ht Hn.
+  rewrite enc_unfold in He. cbn [enc_step] in He.
   destruct v as [| | | | | |vs|]; try discriminate.
-  fold cv_seq_go in Hv. fold rtok_seq_go in Hgo.
+  apply andb_true_iff in Hok. destruct Hok as [Hok Hv].
+  apply andb_true_iff in Hok. destruct Hok as [Ho Hm]. rewrite negb_true_iff in Ho.
+  fold ok_seq_go in Hv.
   destruct (enc_seq_go enc l vs) as [content| | |] eqn:Ec; cbn [bind] in He; try discriminate.
   inversion He; subst bs; clear He.
   rewrite finish_hdr_of in * by exact Hn.
@@ -919,7 +895,7 @@ Proof.
   rewrite (enter_range dec p 0 true (seq_tag p) content). fold H.
   cbn [canon]. fold canon_seq_go.
   pose proof (seq_loop_rt l p (H ++ content) Hm Ho Hs l vs [] [] (length (H ++ content)) 0%nat H content
-                eq_refl IH Hgo Hv Ec eq_refl) as L.
+                eq_refl IH Hv Ec eq_refl) as L.
   cbn [app length] in L. apply L; [lia | reflexivity |].
   rewrite app_length. unfold zlen. lia.
 Qed.
@@ -933,17 +909,17 @@ Proof.
   - apply rt_octets.
   - apply rt_bits.
   - apply rt_null.
-  - intros p v bs Hr. cbn [rtok] in Hr. rewrite andb_false_r in Hr. discriminate.
+  - intros p v bs Hr. cbn [ok] in Hr. rewrite andb_false_r in Hr. discriminate.
   - apply rt_string.
   - apply rt_ptr, IHt.
   - apply rt_wrap, IHt.
   - apply rt_choice, H.
   - apply rt_seq, H.
   - apply rt_slice, IHt.
-  - intros p v bs Hr. cbn [rtok] in Hr. rewrite andb_false_r in Hr. discriminate.
+  - intros p v bs Hr. cbn [ok] in Hr. rewrite andb_false_r in Hr. discriminate.
 Qed.
 
 Corollary dec_enc t p v bs :
-  rtok t p = true -> cv t v = true -> enc t p v = Ok bs -> zlen bs < 2 ^ 32 ->
+  ok t p v = true -> enc t p v = Ok bs -> zlen bs < 2 ^ 32 ->
   dec t p bs = Ok (canon t false v).
-Proof. intros Hr Hv He Hs. exact (proj1 (roundtrip t p v bs Hr Hv He Hs)). Qed.
+Proof. intros Hok He Hs. exact (proj1 (roundtrip t p v bs Hok He Hs)). Qed.
